@@ -57,6 +57,13 @@ def _entry_json(v, e):
     return d
 
 
+def CU(x):
+    """A consumer's uuid as the request spells it: 'cspell' = 'upper' writes
+    it in upper case - the same uuid, and the same consumer, to a client."""
+    u = U(x['c'])
+    return u.upper() if x.get('cspell') == 'upper' else u
+
+
 def render(r):
     op = r['op']
     v = r.get('v')
@@ -152,9 +159,9 @@ def render(r):
     if op == 'rc_del':
         return 'DELETE', '/resource_classes/' + r['name'], headers(v), None
     if op == 'alloc_get':
-        return 'GET', '/allocations/' + U(r['c']), headers(v), None
+        return 'GET', '/allocations/' + CU(r), headers(v), None
     if op == 'alloc_del':
-        return 'DELETE', '/allocations/' + U(r['c']), headers(v), None
+        return 'DELETE', '/allocations/' + CU(r), headers(v), None
     if op == 'alloc_put':
         if v < 12:
             b = {'allocations': [
@@ -170,9 +177,9 @@ def render(r):
             b['consumer_generation'] = None if r['cgen'] == -1 else r['cgen']
         if v >= 38:
             b['consumer_type'] = r['ctype']
-        return 'PUT', '/allocations/' + U(r['c']), headers(v, True), b
+        return 'PUT', '/allocations/' + CU(r), headers(v, True), b
     if op == 'alloc_post':
-        b = {U(e['c']): _entry_json(v, e) for e in r['entries']}
+        b = {CU(e): _entry_json(v, e) for e in r['entries']}
         return 'POST', '/allocations', headers(v, True), b
     if op == 'reshape':
         b = {'inventories': {
@@ -180,7 +187,7 @@ def render(r):
                             'inventories': {y['rc']: inv_json(y['inv'])
                                             for y in x['invs']}}
                 for x in r['invs']},
-             'allocations': {U(e['c']): _entry_json(v, e)
+             'allocations': {CU(e): _entry_json(v, e)
                              for e in r['entries']}}
         return 'POST', '/reshaper', headers(v, True), b
     if op == 'usages':
